@@ -100,7 +100,11 @@ class Target(Monitor):
         size_den = ref.size(base, den)
         eps = sum(ref.grain_base(n) * abs(ref.subs[n].factor(den)) for n in names) / size_den if size_den > 0 else 0
         eps += ref.grain_base(solute.name) / base[solute.name] if base.get(solute.name) else 0
-        eps += 0.5 * cfg.grain / target + 1e-9
+        # the parser rounds the stated ratio to internal precision in base units: half a grain relative to the target,
+        # unless the stated value has at most P decimals anyway (then parsing is exact; trace-level targets stay sharp)
+        if (exact * 10 ** cfg.P).denominator != 1:
+            eps += 0.5 * cfg.grain / target
+        eps += 1e-9
         # reference: solvent amount s (base units) with N / (D0 + s*d) = target
         N = base.get(solute.name, 0.0) * solute.factor(num)
         d = solvent.factor(den)
@@ -233,7 +237,7 @@ PROFILE = {'weights': {'transfer': 3, 'container': 3, 'plate': 0, 'remove': 1, '
                        'create_solution': 3, 'dilute': 6, 'create_solution_from': 1},
            'q_modes': ['frac'] * 9 + ['whole'], 'self_transfer': False, 'initial_plates': 0,
            'fill_modes': ['fit'] * 6 + ['below', 'below', 'over', 'over'],
-           'dilute_modes': ['lower'] * 6 + ['higher', 'higher', 'equal']}
+           'dilute_modes': ['lower'] * 6 + ['higher', 'higher', 'equal', 'slightly']}
 
 
 def run(col):
